@@ -168,6 +168,8 @@ def run(scn, stats):
             # the model has to learn that these executions are due again: re-arm them
             for t, rt in failed:
                 flow.due[(t, None if flow.split.get(t) else rt)] += 1
+                if ir["tasks"][t].get("with"):
+                    flow.rerun_items.add((t, rt))
             flow.must_fail = False
             # drive to rest; quiescence predicate after every step
             def quiesce_check(d, rec_):
